@@ -348,7 +348,7 @@ def s3_erase_by_key(chk, db, rec_q, funcs):
         unknown = None
         reach_eq = False
         any_pos_erase = False
-        for p in paths(f["body"]):
+        for p in normalised_paths(f["body"]):      # a test on a boolean local is the test of its initialiser
             pos_vars = set()
             tested = False
             by_remove = False
